@@ -57,6 +57,11 @@ def main(argv):
         json.dump(rp, open(path, "w"), indent=1, default=runner._json_default)
         print("rebased:", v["signature"], "round", v["round"])
         return 0
+    if cmd == "digest-scenario":
+        sc = json.load(open(argv[2]))
+        res = runner.registry()[argv[1]].run(sc)
+        print(res.digest)
+        return 0
     if cmd == "digests":
         prop, tier, seed, idx = argv[1], argv[2], int(argv[3]), [int(x) for x in argv[4].split(",") if x]
         out = {}
